@@ -18,6 +18,10 @@ Definition dec_incl (x : sexp) : option incl :=
   | L [A 0] => Some IncTrue
   | L [A 1] => Some IncFalse
   | L [A 2; s] => match dec_str s with Some v => Some (IncRef v) | None => None end
+  | L [A 3; s; A pos; w] => match dec_str s, dec_str w with
+                            | Some v, Some w' => Some (IncCmp v (negb (N.eqb pos 0)) w')
+                            | _, _ => None
+                            end
   | _ => None
   end.
 Definition dec_iter (x : sexp) : option iterspec :=
@@ -39,6 +43,7 @@ Definition dec_value (x : sexp) : option value :=
   match x with
   | L [A 0; s] => match dec_str s with Some v => Some (VS v) | None => None end
   | L [A 1; l] => match dec_list dec_str l with Some v => Some (VL v) | None => None end
+  | L [A 2; A n] => Some (VI (N.to_nat n))
   | _ => None
   end.
 Definition dec_ctx (x : sexp) : option ctx := dec_list (dec_pair dec_str dec_value) x.
@@ -50,9 +55,10 @@ Definition enc_event (e : event) : sexp :=
   | EvRow i t => L [A 1; enc_str i; enc_str t]
   | EvEnter b o => L [A 2; enc_bt b; enc_bool o]
   | EvEnd i => L [A 3; enc_str i]
+  | EvPush => L [A 4]
   end.
 Definition enc_value (v : value) : sexp :=
-  match v with VS s => L [A 0; enc_str s] | VL l => L [A 1; L (map enc_str l)] end.
+  match v with VS s => L [A 0; enc_str s] | VL l => L [A 1; L (map enc_str l)] | VI n => L [A 2; enc_nat n] end.
 Definition enc_err (e : err) : N :=
   match e with Unterminated => 1 | WrongTerminator => 2 | NoLoopVar => 3 | KeyErr => 4 | Undefined => 5 | NotAList => 6 | OutOfFuel => 7 end.
 
